@@ -284,7 +284,7 @@ func main() {
 	write(filepath.Join(out, "Modes.lean"), modes)
 	write(filepath.Join(out, "Structural.lean"), structural)
 	difflib := loadPkg(filepath.Join(repo, "internal", "difflib"))
-	pure, effectful := extractFuncs(map[string]*pkgInfo{"snaps": snaps, "difflib": difflib, "match": match}, F)
+	pure, effectful := extractFuncs(map[string]*pkgInfo{"snaps": snaps, "difflib": difflib, "match": match, "colors": loadPkg(filepath.Join(repo, "internal", "colors"))}, F)
 	write(filepath.Join(out, "Funcs.lean"), pure)
 	write(filepath.Join(out, "FuncsIO.lean"), effectful)
 	b, _ := json.MarshalIndent(F, "", " ")
